@@ -269,8 +269,11 @@ func (r *allocRun) doAlloc() {
 			class = "below"
 			hint.IP = ip
 		}
-	case k == 9: // outside, above
+	case k == 9: // outside, above (half of the time the block right behind the pool)
 		d := int64(p.N) + int64(r.rng.Intn(int(min64(p.N+2, 70))))
+		if r.rng.Intn(2) == 0 {
+			d = int64(p.N)
+		}
 		if ip := r.addrIn(d, true); ip != nil {
 			class = "above"
 			hint.IP = ip
@@ -465,8 +468,11 @@ func (r *allocRun) doFree() {
 			target.IP = ip
 			setMask(p.Page)
 		}
-	case k == 12: // above the pool
+	case k == 12: // above the pool (half of the time the block right behind it)
 		d := int64(p.N) + int64(r.rng.Intn(int(min64(p.N+2, 70))))
+		if r.rng.Intn(2) == 0 {
+			d = int64(p.N)
+		}
 		if ip := r.addrIn(d, true); ip != nil {
 			class = "above-pool"
 			target.IP = ip
